@@ -21,3 +21,32 @@ Theorem C09_headers_declare_before_use : forall e f t,
   (forall x, depth_le e f x = true) -> declared_before_use (expand_h e (S f) t) = true.
 Proof. exact headers_declare_before_use. Qed.
 Print Assumptions C09_headers_declare_before_use.
+
+(* ---------- identifier escaping (keyword-named parameters and methods), for the keyword tables the code has now ---------- *)
+From Coq Require Import String.
+From DV Require Import gen.Tables Escape.Model Escape.Proofs.
+Local Open Scope string_scope.
+
+(* an escaped name is never a keyword of the target language: C, C++, JS (strict mode), Python *)
+Theorem C09_escaped_is_not_a_keyword : forall name,
+  mem (c_ident name) c_keywords = false /\ mem (cpp_ident name) cpp_keywords = false /\
+  mem (js_ident name) js_reserved = false /\ mem (py_ident name) py_keywords = false.
+Proof. exact escaped_is_not_a_keyword. Qed.
+Print Assumptions C09_escaped_is_not_a_keyword.
+
+(* every C keyword is escaped in C++ headers too *)
+Theorem C09_cpp_table_extends_c : forall k, mem k c_keywords = true -> mem k cpp_keywords = true.
+Proof. exact cpp_extends_c. Qed.
+Print Assumptions C09_cpp_table_extends_c.
+
+(* two different names come out equal only for a keyword k and the name "k_" — exactly the class of the recorded
+   finding (`int` / `int_`), for any keyword table *)
+Theorem C09_escape_collisions_are_the_recorded_class : forall kw a b, a <> b ->
+  (escape kw a = escape kw b <->
+   (mem a kw = true /\ mem b kw = false /\ b = a ++ "_") \/ (mem b kw = true /\ mem a kw = false /\ a = b ++ "_")).
+Proof. exact escape_collision_iff. Qed.
+Print Assumptions C09_escape_collisions_are_the_recorded_class.
+
+Theorem C09_escape_injective_refuted : c_ident "int" = c_ident "int_" /\ "int" <> "int_".
+Proof. exact c_collision_witness. Qed.
+Print Assumptions C09_escape_injective_refuted.
